@@ -131,6 +131,37 @@ theorem C11_successful_update_count (t : Table) (sel : Row → Except DErr Bool)
       refine ⟨cands, us, hc, hus, (planUpdates_spec t f cands [] us hus).1, h.symm, ?_⟩
       simp [hus]
 
+/-- The write phase of UPDATE cannot fail once planning succeeded: every planned row passed the
+column-type / NOT NULL / CHECK / key validation (`validateUpdateRow`, which is what
+`Table::normalize_row` + `ConstraintValidator` check before the first write since the repair),
+and every planned position is an existing row position at every step of the write loop
+(`update_row_selective` returns `ColumnIndexOutOfBounds` only for a position past the end; the
+model's `updateAt` would silently skip it). -/
+theorem C11_update_write_phase_infallible (t : Table) (sel : Row → Except DErr Bool) (f : Row → Except DErr Row)
+    (cands us : List (Nat × Row)) (hc : Table.selectRows sel t.rows 0 = .ok cands)
+    (hp : t.planUpdates f cands [] = .ok us) :
+    (∀ p ∈ us, p.1 < t.rows.length ∧ p.2.all Table.coerceOk = true ∧ t.checkNotNull p.2 = true) ∧
+    (∀ (i : Nat) (new : Row) (t' : Table), (t'.updateAt i new).rows.length = t'.rows.length) := by
+  constructor
+  · intro p hpm
+    obtain ⟨s1, _⟩ := selectRows_spec sel t.rows 0 cands hc
+    obtain ⟨_, p2, _⟩ := planUpdates_spec t f cands [] us hp
+    obtain ⟨old, ho1, ho2, _⟩ := p2 p hpm
+    have hget := (s1 (p.1, old) ho1).2
+    simp only [Nat.sub_zero] at hget
+    have hlt : p.1 < t.rows.length := by
+      rcases Nat.lt_or_ge p.1 t.rows.length with h | h
+      · exact h
+      · rw [List.getElem?_eq_none h] at hget; simp at hget
+    refine ⟨hlt, ?_, (validateUpdateRow_ok t old p.2 ho2).1⟩
+    unfold Table.validateUpdateRow at ho2
+    split at ho2
+    · simp at ho2
+    · rename_i h; simpa using h
+  · intro i new t'
+    unfold Table.updateAt
+    split <;> simp
+
 /-! non-vacuity of the hypotheses: a failing statement of the fragment on a non-trivial state -/
 
 def demo : Table := run thr (Table.create 2 [0] (some [0]) [] [])
